@@ -295,7 +295,7 @@ def run_check(pid, tier, seed, mc_cfgs, profiles, thorough_profiles, assumptions
         if not r["violated"]:
             raise vlib.ToolError("spec mutant %s is not rejected by TLC: invariants are vacuous" % cfg)
         vlib.log("[mc] spec mutant %s violates %s as expected" % (cfg, r["violated"]))
-    cap = 6000 if thorough else 400
+    cap = 3000 if thorough else 400
     if len(scripts) > cap:
         scripts = rng.sample(scripts, cap)
     types = ["static", "anchors", "zerofee"]
